@@ -17,7 +17,6 @@ package classifier
 //@   ensures klen == 0 ==> result == 1.0
 //@   ensures klen > 0 && distance >= 1 ==> result < 1.0
 //@   ensures distance == 0 ==> result == 1.0
-//@   ensures distance <= klen ==> result >= 0.0
 //@   props C02 C03 C01
 //@
 //@ func computeQ
@@ -53,8 +52,10 @@ package classifier
 //
 //@ func diffLevenshteinWord
 //@   ensures result >= 0
+//@   ensures result == 0 ==> (forall i int :: 0 <= i && i < len(diffs) && (diffs[i].Type == 1 || diffs[i].Type == -1) ==> diffs[i].Text == "")
 //@   modifies nothing
 //@   loop 1 invariant levenshtein >= 0 && insertions >= 0 && deletions >= 0
+//@   loop 1 invariant (levenshtein == 0 && insertions == 0 && deletions == 0) ==> (forall i int :: 0 <= i && i <= rangeindex && (diffs[i].Type == 1 || diffs[i].Type == -1) ==> diffs[i].Text == "")
 //@   props C02 C10 C03
 //
 // ---------------------------------------------------------------- trace.go
@@ -182,7 +183,8 @@ package classifier
 //@   modifies entries(h)
 //@   loop 1 invariant 0 <= offset && q >= 1 && len(css) == len(tr) && okHash(h, len(toks))
 //@   loop 1 invariant (css == nil || fresh(css)) && (tr == nil || fresh(tr))
-//@   loop 1 invariant forall c uint32 :: (c in h) ==> fresh(h[c])
+//@   loop 1 invariant forall c uint32 :: (c in h) ==> fresh(h[c]) && ref(h[c]) != ref(tr)
+//@   loop 1 invariant forall c1 uint32, c2 uint32 :: (c1 in h) && (c2 in h) && c1 != c2 ==> ref(h[c1]) != ref(h[c2])
 //@   loop 1 invariant forall i int :: 0 <= i && i < len(tr) ==> okTR(tr[i], len(toks))
 //@   loop 2 invariant 0 <= i && i <= q && offset + q <= len(toks)
 //@   props C10 C17
@@ -334,7 +336,7 @@ package classifier
 //@   requires 0 <= doc2Start && doc2Start <= doc2End && doc2End <= cap(doc2.runes)
 //@   ensures fresh(result)
 //@   modifies elems(doc1.runes), elems(doc2.runes)
-//@   props C10
+//@   props C10 C09
 //@
 //@ func isVersionNumber
 //@   modifies nothing
@@ -353,7 +355,7 @@ package classifier
 //@   ensures result1 >= 0 && result2 >= 0
 //@   ensures !isNaN(result0) && result0 <= 1.0
 //@   modifies elems(unknown.runes), elems(known.runes)
-//@   props C10 C03 C02
+//@   props C10 C03 C02 C09
 //@
 // ---------------------------------------------------------------- classifier.go: names
 //
@@ -391,7 +393,9 @@ package classifier
 //
 //@ spec okLines(d *indexedDocument) bool = forall i int :: 0 <= i && i < len(d.Tokens) ==> d.Tokens[i].Line >= 1
 //@ spec okPseudo(ms Matches) bool = forall i int :: 0 <= i && i < len(ms) ==> ms[i] != nil && ms[i].Name == "Copyright" && ms[i].MatchType == "Copyright" && ms[i].Confidence == 1.0 && ms[i].StartLine == ms[i].EndLine && ms[i].StartLine >= 1
-//@ spec wfDoc(d *indexedDocument) bool = d != nil && d.f != nil && d.dict != nil && len(d.runes) == len(d.Tokens) && okLines(d) && okPseudo(d.Matches)
+//@ spec sortedLines(d *indexedDocument) bool = forall i int, j int :: 0 <= i && i <= j && j < len(d.Tokens) ==> d.Tokens[i].Line <= d.Tokens[j].Line
+//@ spec boundedLines(d *indexedDocument, n int) bool = forall i int :: 0 <= i && i < len(d.Tokens) ==> d.Tokens[i].Line <= n
+//@ spec wfDoc(d *indexedDocument) bool = d != nil && d.f != nil && d.dict != nil && len(d.runes) == len(d.Tokens) && okLines(d) && sortedLines(d) && okPseudo(d.Matches)
 //@ spec wfCorpusDoc(d *indexedDocument) bool = wfDoc(d) && wfSet(d.s) && d.s.Tokens == d.Tokens
 //@ spec wfClassifier(c *Classifier) bool = c != nil && wfDict(c.dict) && c.docs != nil && c.q >= 1 && (forall l string :: (l in c.docs) ==> wfCorpusDoc(c.docs[l]) && nsep(l, runeStr(47)) >= 2)
 //@
@@ -428,8 +432,8 @@ package classifier
 //@
 //@ func appendToDoc
 //@   requires doc != nil && dict != nil && ld != nil && (updateDict ==> wfDict(dict)) && line >= 1
-//@   requires okLines(doc) && okPseudo(doc.Matches)
-//@   ensures okLines(doc) && okPseudo(doc.Matches)
+//@   requires okLines(doc) && okPseudo(doc.Matches) && sortedLines(doc) && boundedLines(doc, line)
+//@   ensures okLines(doc) && okPseudo(doc.Matches) && sortedLines(doc) && boundedLines(doc, line)
 //@   ensures len(doc.Tokens) >= old(len(doc.Tokens)) && len(doc.Matches) >= old(len(doc.Matches))
 //@   ensures (doc.Tokens == nil || fresh(doc.Tokens) || ref(doc.Tokens) == old(ref(doc.Tokens))) && (doc.Matches == nil || fresh(doc.Matches) || ref(doc.Matches) == old(ref(doc.Matches)))
 //@   ensures dict.words == old(dict.words) && dict.indices == old(dict.indices)
@@ -448,9 +452,11 @@ package classifier
 //@   modifies entries(dict.words) when updateDict || !normalize
 //@   modifies entries(dict.indices) when updateDict || !normalize
 //@   loop 1 invariant tgt == 1020 && 0 <= idx && idx <= 4 && line >= 1 && wfDict(ld) && fresh(ld) && fresh(ld.words) && fresh(ld.indices)
+//@   loop 1 invariant sortedLines(&doc) && boundedLines(&doc, line)
 //@   loop 1 invariant okLines(&doc) && okPseudo(doc.Matches) && (doc.Tokens == nil || fresh(doc.Tokens)) && (doc.Matches == nil || fresh(doc.Matches))
 //@   loop 1 invariant (obuf == nil || fresh(obuf)) && (linebuf == nil || fresh(linebuf))
 //@   loop 2 invariant 0 <= idx && idx <= 1024 && 0 <= tgt && tgt <= 1024 && line >= 1 && wfDict(ld) && fresh(ld) && fresh(ld.words) && fresh(ld.indices)
+//@   loop 2 invariant sortedLines(&doc) && boundedLines(&doc, line)
 //@   loop 2 invariant okLines(&doc) && okPseudo(doc.Matches) && (doc.Tokens == nil || fresh(doc.Tokens)) && (doc.Matches == nil || fresh(doc.Matches))
 //@   loop 2 invariant (obuf == nil || fresh(obuf)) && (linebuf == nil || fresh(linebuf))
 //@   loop 3 invariant obuf == nil || fresh(obuf)
@@ -478,39 +484,72 @@ package classifier
 //@   trusted
 //@   ensures typeis(data, "Matches") ==> (forall k int :: 0 <= k && k < len(unbox(data, "Matches")) ==> (exists j int :: 0 <= j && j < len(unbox(data, "Matches")) && unbox(data, "Matches")[k] == old(unbox(data, "Matches")[j])))
 //@
-//@ spec okCand(m *Match, ntok int, thr float64) bool = m != nil && (m.MatchType == "Copyright" || (thr <= m.Confidence && m.Confidence <= 1.0 && 0 <= m.StartTokenIndex && m.StartTokenIndex <= m.EndTokenIndex && m.EndTokenIndex < ntok))
+//@ spec pseudoShape(m *Match) bool = m.Name == "Copyright" && m.MatchType == "Copyright" && m.Confidence == 1.0 && m.StartLine == m.EndLine && m.StartLine >= 1
+//@ spec okCand(m *Match, id *indexedDocument, thr float64) bool = m != nil && (pseudoShape(m) || (thr <= m.Confidence && m.Confidence <= 1.0 && 0 <= m.StartTokenIndex && m.StartTokenIndex <= m.EndTokenIndex && m.EndTokenIndex < len(id.Tokens) && m.StartLine == id.Tokens[m.StartTokenIndex].Line && m.EndLine == id.Tokens[m.EndTokenIndex].Line))
+//@ spec okCands(ms Matches, id *indexedDocument, thr float64) bool = forall k int :: 0 <= k && k < len(ms) ==> okCand(ms[k], id, thr)
+//@ spec okRes(m *Match, thr float64, total int) bool = m != nil && (pseudoShape(m) || (thr <= m.Confidence && m.Confidence <= 1.0 && 0 <= m.StartTokenIndex && m.StartTokenIndex <= m.EndTokenIndex && 1 <= m.StartLine && m.StartLine <= m.EndLine && m.EndLine <= total))
+//@ spec matchLess(a *Match, b *Match) bool = ite(a.Confidence != b.Confidence, a.Confidence > b.Confidence, ite(a.StartTokenIndex != b.StartTokenIndex, a.StartTokenIndex < b.StartTokenIndex, a.EndTokenIndex > b.EndTokenIndex))
+//@ spec sortedConf(ms Matches) bool = forall x int, y int :: 0 <= x && x < y && y < len(ms) ==> ms[x].Confidence >= ms[y].Confidence
+//@
+//@ func extern sort.Sort
+//@   trusted
+//@   ensures typeis(data, "Matches") ==> (forall x int, y int :: 0 <= x && x < y && y < len(unbox(data, "Matches")) ==> !matchLess(unbox(data, "Matches")[y], unbox(data, "Matches")[x]))
+//@
+//@ func (Matches).Len
+//@   ensures result == len(d)
+//@   modifies nothing
+//@   props C03 C04 C10
+//@
+//@ func (Matches).Swap
+//@   requires 0 <= i && i < len(d) && 0 <= j && j < len(d)
+//@   ensures d[i] == old(d[j]) && d[j] == old(d[i])
+//@   ensures forall k int :: 0 <= k && k < len(d) && k != i && k != j ==> d[k] == old(d[k])
+//@   modifies elems(d)
+//@   props C03 C04 C10
+//@
+//@ func (Matches).Less
+//@   requires 0 <= i && i < len(d) && 0 <= j && j < len(d) && d[i] != nil && d[j] != nil
+//@   ensures result == matchLess(d[i], d[j])
+//@   modifies nothing
+//@   props C03 C04 C10
 //@
 //@ func (*Classifier).match
 //@   requires wfClassifier(c) && 0.0 <= c.threshold && c.threshold <= 1.0
-//@   ensures result1 != nil ==> len(result0.Matches) == 0 && result0.TotalInputLines == 0
-//@   ensures forall i int :: 0 <= i && i < len(result0.Matches) ==> result0.Matches[i] != nil
+//@   ensures result1 != nil ==> len(result0.Matches) == 0
+//@   ensures forall i int :: 0 <= i && i < len(result0.Matches) ==> okRes(result0.Matches[i], c.threshold, result0.TotalInputLines)
+//@   ensures sortedConf(result0.Matches)
+//@   modifies nothing
 //@   loop 1 invariant firstPass != nil && fresh(firstPass) && wfDoc(id) && fresh(id) && id.s == nil && id.dict == c.dict
 //@   loop 1 invariant forall l string :: (l in firstPass) ==> (l in c.docs) && firstPass[l] == c.docs[l]
 //@   loop 2 invariant fresh(firstPass) && wfDoc(id) && fresh(id) && wfSet(id.s) && id.s.Tokens == id.Tokens && id.dict == c.dict
 //@   loop 2 invariant forall l string :: (l in firstPass) ==> (l in c.docs) && firstPass[l] == c.docs[l]
-//@   loop 2 invariant forall k int :: 0 <= k && k < len(candidates) ==> candidates[k] != nil
+//@   loop 2 invariant okCands(candidates, id, c.threshold)
 //@   loop 2 invariant candidates == nil || (fresh(candidates) && ref(candidates) != ref(id.Matches))
 //@   loop 3 invariant fresh(firstPass) && wfDoc(id) && fresh(id) && wfSet(id.s) && id.s.Tokens == id.Tokens && id.dict == c.dict
 //@   loop 3 invariant forall l string :: (l in firstPass) ==> (l in c.docs) && firstPass[l] == c.docs[l]
-//@   loop 3 invariant forall k int :: 0 <= k && k < len(candidates) ==> candidates[k] != nil
+//@   loop 3 invariant okCands(candidates, id, c.threshold)
 //@   loop 3 invariant candidates == nil || (fresh(candidates) && ref(candidates) != ref(id.Matches))
 //@   loop 3 invariant (l in c.docs) && d == c.docs[l] && okMRs(matches, len(id.Tokens))
-//@   loop 4 invariant len(retain) == len(candidates) && fresh(retain) && (forall k int :: 0 <= k && k < len(candidates) ==> candidates[k] != nil)
-//@   loop 5 invariant len(retain) == len(candidates) && fresh(retain) && (forall k int :: 0 <= k && k < len(candidates) ==> candidates[k] != nil)
+//@   loop 4 invariant len(retain) == len(candidates) && fresh(retain) && okCands(candidates, id, old(c.threshold)) && sortedConf(candidates)
+//@   loop 5 invariant len(retain) == len(candidates) && fresh(retain) && okCands(candidates, id, old(c.threshold)) && sortedConf(candidates)
 //@   loop 5 invariant proposals != nil && fresh(proposals) && (forall p int :: (p in proposals) ==> 0 <= p && p < len(retain))
 //@   loop 6 invariant len(retain) == len(candidates) && fresh(retain) && (forall p int :: (p in proposals) ==> 0 <= p && p < len(retain))
-//@   loop 7 invariant len(retain) == len(candidates) && (forall k int :: 0 <= k && k < len(candidates) ==> candidates[k] != nil)
-//@   loop 7 invariant forall k int :: 0 <= k && k < len(out) ==> out[k] != nil
-//@   props C10 C03 C08
+//@   loop 7 invariant len(retain) == len(candidates) && okCands(candidates, id, old(c.threshold)) && sortedConf(candidates) && (out == nil || (fresh(out) && ref(out) != ref(candidates)))
+//@   loop 7 invariant okCands(out, id, old(c.threshold)) && sortedConf(out)
+//@   loop 7 invariant forall k int, j int :: 0 <= k && k < len(out) && rangeindex < j && j < len(candidates) ==> out[k].Confidence >= candidates[j].Confidence
+//@   loop 7 invariant id != nil && okLines(id) && sortedLines(id) && len(id.Tokens) > 0
+//@   props C10 C03 C08 C09 C04
 //@
 //@ func (*Classifier).MatchFrom
 //@   requires wfClassifier(c) && 0.0 <= c.threshold && c.threshold <= 1.0
-//@   ensures result1 != nil ==> len(result0.Matches) == 0 && result0.TotalInputLines == 0
-//@   props C10 C08
+//@   ensures result1 != nil ==> len(result0.Matches) == 0
+//@   modifies nothing
+//@   props C10 C08 C09 C04
 //@
 //@ func (*Classifier).Match
 //@   requires wfClassifier(c) && 0.0 <= c.threshold && c.threshold <= 1.0
-//@   props C10
+//@   modifies nothing
+//@   props C10 C09 C04
 //
 //@ func (*indexedDocument).normalized
 //@   requires d != nil && d.dict != nil
